@@ -754,13 +754,15 @@ func recordFault(c FaultCase, info FaultInfo) {
 
 // faultSetups bring a small allocator into the states in which the sites differ: fresh, first segment full (the
 // next ArrangeBlock reads a second header), full, full with a hole in the last segment.
-var faultSetups = [][]FaultOp{
-	nil,
-	{{K: "A", N: 7}},
-	{{K: "A", N: 7}, {K: "f", N: 2}, {K: "a"}},
-	{{K: "A", N: -1}},
-	{{K: "A", N: -1}, {K: "f", N: 12}},
-	{{K: "A", N: 4}, {K: "b", N: 1}, {K: "b", N: 3}, {K: "f", N: 0}},
+func faultSetups(per int) [][]FaultOp {
+	return [][]FaultOp{
+		nil,
+		{{K: "A", N: per - 1}},
+		{{K: "A", N: per - 1}, {K: "f", N: 2}, {K: "a"}},
+		{{K: "A", N: -1}},
+		{{K: "A", N: -1}, {K: "f", N: per + 4}},
+		{{K: "A", N: 4}, {K: "b", N: 1}, {K: "b", N: 3}, {K: "f", N: 0}},
+	}
 }
 
 // faultProbes: every call kind; At selects the storage call of the op.
@@ -810,8 +812,9 @@ func TestC17Fault(t *testing.T) {
 	if shard, shards := vstat.Shard(); true {
 		n, k := 0, 0
 		reported := map[string]bool{}
-		for _, geo := range []FaultCase{{BS: 1, Segs: 2, Fit: true}, {BS: 2, Segs: 3, Over: 5}} {
-			for _, setup := range faultSetups {
+		geos := vstat.Pick([]FaultCase{{BS: 1, Segs: 2, Fit: true}}, []FaultCase{{BS: 1, Segs: 2, Fit: true}, {BS: 2, Segs: 3, Over: 5}, {BS: 4, Segs: 2, Over: 1}})
+		for _, geo := range geos {
+			for _, setup := range faultSetups(geo.BS * 8) {
 				for _, probe := range faultProbes {
 					for ei := 0; ei < NumFaultErrs; ei++ {
 						for sh := 0; sh < NumFaultShapes; sh++ {
@@ -835,7 +838,7 @@ func TestC17Fault(t *testing.T) {
 				}
 			}
 		}
-		st.SetExhaustive(fmt.Sprintf("failing_storage_grid_shard%d", shard), map[string]any{"errors": NumFaultErrs, "shapes": NumFaultShapes, "probes": len(faultProbes), "states": len(faultSetups), "geometries": 2, "cases": n})
+		st.SetExhaustive(fmt.Sprintf("failing_storage_grid_shard%d", shard), map[string]any{"errors": NumFaultErrs, "shapes": NumFaultShapes, "probes": len(faultProbes), "states": len(faultSetups(8)), "geometries": len(geos), "cases": n})
 	}
 	t.Run("rapid", func(t *testing.T) {
 		rapid.Check(t, func(t *rapid.T) {
